@@ -16,7 +16,7 @@ suite() { # logfile
   echo "SUITE_PASS=$(grep -h '^# PASS:' $(find . -name test-suite.log) | awk '{s+=$3} END{print s}') FAIL=$(grep -h '^# FAIL:' $(find . -name test-suite.log) | awk '{s+=$3} END{print s}') ERROR=$(grep -h '^# ERROR:' $(find . -name test-suite.log) | awk '{s+=$3} END{print s}')"
   grep -h '^FAIL:\|^ERROR:' $(find . -name test-suite.log) 2>/dev/null | head -5
 }
-for m in /tmp/wt-$id-out/m3 /tmp/wt-$id-out/m4; do
+for m in $(for k in ${MLIST:-m3 m4}; do echo /tmp/wt-$id-out/$k; done); do
   [ -d $m ] || continue
   log=$m/confirm.log; : > $log
   make -j16 >/dev/null 2>&1
@@ -28,7 +28,7 @@ for m in /tmp/wt-$id-out/m3 /tmp/wt-$id-out/m4; do
   git checkout -q -- . ; git clean -fdq -e '*.o' -e '*.lo' >/dev/null 2>&1
 done
 blog=/tmp/wt-$id-out/b-confirm.log; : > $blog
-for b in /tmp/wt-$id-out/b1 /tmp/wt-$id-out/b2 /tmp/wt-$id-out/b3; do
+for b in $(for k in ${BLIST:-b1 b2 b3}; do echo /tmp/wt-$id-out/$k; done); do
   [ -d $b ] || continue
   if git apply $b/patch.diff 2>>$blog; then echo "APPLIED $(basename $b)" >> $blog; else echo "APPLY_FAILED $(basename $b)" >> $blog; fi
 done
